@@ -614,6 +614,70 @@ fn server_shutdown(seed: u64) {
     println!("{{\"found\": false, \"evaluations\": {}, \"searched\": \"{} connections with 200 pipelined SETs each, shutdown signal at a pseudo-random moment; received bytes must be whole replies, acknowledged SETs must be stored\"}}", rounds, rounds);
 }
 // ---------------------------------------------------------------------------------------------------
+// C15 (bounded): the real Server with max_connections = 2.  Connections come and go in every way a client can end one; afterwards
+// exactly two connections are served concurrently and a third is served only once one of them has closed.
+fn server_slots() {
+    use bitcask::storage::bitcask::{Config as SConf, SyncStrategy};
+    use tokio::io::{AsyncReadExt, AsyncWriteExt};
+    let rt = tokio::runtime::Builder::new_multi_thread().worker_threads(2).enable_all().build().unwrap();
+    let dir = tempfile::tempdir().unwrap();
+    let mut c = SConf::default();
+    c.path(dir.path()).concurrency(2).max_file_size(1 << 20).sync(SyncStrategy::None).merge_check_interval_ms(1_000_000_000).merge_check_jitter(0.0);
+    let kv = c.open().unwrap();
+    let handle = kv.get_handle();
+    let port = { let l = std::net::TcpListener::bind("127.0.0.1:0").unwrap(); l.local_addr().unwrap().port() };
+    let (stop_tx, stop_rx) = tokio::sync::oneshot::channel::<()>();
+    let mut nc = bitcask::net::Config::default();
+    nc.host = "127.0.0.1".parse().unwrap(); nc.port = port; nc.max_connections = 2;
+    const PING: &[u8] = b"*2\r\n$3\r\nGET\r\n$1\r\nk\r\n";   // reply: $-1\r\n
+    let res: Result<(usize, String), String> = rt.block_on(async {
+        let server = nc.async_server(handle, async { let _ = stop_rx.await; }).await.map_err(|e| format!("server start: {}", e))?;
+        let srv = tokio::spawn(server.run());
+        // is this connection served within `ms`?
+        async fn served(s: &mut tokio::net::TcpStream, ms: u64) -> bool {
+            if s.write_all(PING).await.is_err() { return false; }
+            let mut buf = [0u8; 5]; let mut n = 0;
+            while n < 5 { match tokio::time::timeout(std::time::Duration::from_millis(ms), s.read(&mut buf[n..])).await { Ok(Ok(0)) | Ok(Err(_)) | Err(_) => return false, Ok(Ok(k)) => n += k } }
+            &buf == b"$-1\r\n"
+        }
+        let mut churned = 0usize;
+        for round in 0..12usize {
+            let mut s = tokio::net::TcpStream::connect(("127.0.0.1", port)).await.map_err(|e| format!("connect: {}", e))?;
+            match round % 4 {
+                0 => { if !served(&mut s, 3000).await { return Ok((churned, format!("connection {} (the only one open) was not served within 3 s", round))); } }   // clean close after one request
+                1 => { let _ = s.write_all(b"*2\r\n$3\r\nGE").await; }                       // ends in the middle of a frame
+                2 => { let _ = s.write_all(b"*1\r\n$4\r\nNOPE\r\n").await; let mut b = [0u8; 64]; let _ = tokio::time::timeout(std::time::Duration::from_millis(300), s.read(&mut b)).await; }   // unknown command
+                _ => { let _ = s.write_all(b"!garbage\r\n").await; let mut b = [0u8; 64]; let _ = tokio::time::timeout(std::time::Duration::from_millis(300), s.read(&mut b)).await; }   // protocol error
+            }
+            drop(s);
+            churned += 1;
+            tokio::time::sleep(std::time::Duration::from_millis(30)).await;
+        }
+        // two at once must be served ...
+        let mut a = tokio::net::TcpStream::connect(("127.0.0.1", port)).await.map_err(|e| format!("connect: {}", e))?;
+        let mut b = tokio::net::TcpStream::connect(("127.0.0.1", port)).await.map_err(|e| format!("connect: {}", e))?;
+        if !served(&mut a, 3000).await { return Ok((churned, "after the churn the first of two concurrent connections was not served within 3 s (slots leaked)".into())); }
+        if !served(&mut b, 3000).await { return Ok((churned, "after the churn the second of two concurrent connections was not served within 3 s (slots leaked)".into())); }
+        // ... a third one must wait ...
+        let mut t = tokio::net::TcpStream::connect(("127.0.0.1", port)).await.map_err(|e| format!("connect: {}", e))?;
+        if served(&mut t, 500).await { return Ok((churned, "a third connection was served while two others were open (max_connections = 2)".into())); }
+        // ... until one of the two closes (its request is already in the socket)
+        drop(a);
+        let mut buf = [0u8; 5]; let mut n = 0;
+        while n < 5 { match tokio::time::timeout(std::time::Duration::from_millis(3000), t.read(&mut buf[n..])).await { Ok(Ok(k)) if k > 0 => n += k, _ => return Ok((churned, "the waiting third connection was not served within 3 s after one of the two closed".into())) } }
+        drop(b); drop(t);
+        let _ = stop_tx.send(());
+        let _ = tokio::time::timeout(std::time::Duration::from_secs(10), srv).await;
+        Ok((churned, String::new()))
+    });
+    let hist = "max_connections = 2; 12 connections ending by clean close / mid-frame / unknown command / protocol error; then 2 concurrent connections + a third";
+    match res {
+        Err(e) => { eprintln!("server-slots: {}", e); std::process::exit(3); }
+        Ok((_, msg)) if !msg.is_empty() => println!("{{\"found\": true, \"kind\": \"slots\", \"props\": \"C15\", \"history\": {}, \"observed\": {}, \"expected\": {}}}", js(hist), js(&msg), js("two connections served, the third only after one of them closed")),
+        Ok((n, _)) => println!("{{\"found\": false, \"evaluations\": {}, \"searched\": {}}}", n + 3, js(hist)),
+    }
+}
+// ---------------------------------------------------------------------------------------------------
 // storage scenarios: every one runs the real store in a fresh temp dir and compares with a map model
 mod store {
     use bitcask::storage::bitcask::{Config, SyncStrategy};
@@ -1054,6 +1118,7 @@ fn main() {
         }
         Some("conn-search") => conn_search(),
         Some("server-hostile") => server_hostile(),
+        Some("server-slots") => server_slots(),
         Some("server-shutdown") => server_shutdown(a.get(2).map(|s| s.parse().unwrap()).unwrap_or(0)),
         Some("server-search") => server_search(a.get(2).map(|s| s.parse().unwrap()).unwrap_or(0)),
         Some("decimal-search") => decimal_search(a.get(2).map(|s| s.parse().unwrap()).unwrap_or(200000)),
